@@ -8,6 +8,7 @@ import (
 	"compress/gzip"
 	"io"
 	"io/ioutil"
+	"runtime/debug"
 
 	"verif/harness/hv"
 
@@ -162,13 +163,19 @@ var ces = []string{"", "", "", "", "", "", "identity", "identity", "gzip", "br",
 
 func gen(r *hv.Rng, i int, tier string) (string, hv.Val) {
 	if r.Chance(3, 5) {
-		codec := r.Intn(2)
+		codec := 0
+		if r.Chance(3, 10) { // a brotli writer costs ~30 ms to set up: smaller share
+			codec = 1
+		}
 		level := r.Range(1, 9)
 		if codec == 0 && r.Chance(1, 5) {
 			level = pick(r, -2, -1, 0)
 		}
 		if codec == 1 {
-			level = r.Range(0, 11)
+			level = r.Range(0, 9)
+			if r.Chance(1, 25) { // the slow zopfli-style qualities: rarely
+				level = r.Range(10, 11)
+			}
 		}
 		flush := pick(r, 64, 64, 100, 128, 512, 4096, 16, 1, 7, 65)
 		body := genBody(r, 700)
@@ -219,7 +226,7 @@ func gen(r *hv.Rng, i int, tier string) (string, hv.Val) {
 		}
 		return class, hv.L{hv.I(1), hv.I(codec), hv.I(level), hv.I(flush), chunks, hv.I(p)}
 	}
-	cmd := pick(r, 0, 0, 0, 1, 1, 1, 2, 3)
+	cmd := pick(r, 0, 0, 0, 0, 1, 1, 2, 3)
 	hasRule := !r.Chance(1, 8)
 	ae := r.Pick(aes)
 	ce := r.Pick(ces)
@@ -237,7 +244,8 @@ func gen(r *hv.Rng, i int, tier string) (string, hv.Val) {
 }
 
 func main() {
-	hv.Main(&hv.Spec{Prop: "C54", Gen: gen, Impl: impl, NQuick: 5000, NThorough: 200000})
+	debug.SetGCPercent(1000) // every case allocates fresh MB-sized compressor tables
+	hv.Main(&hv.Spec{Prop: "C54", Gen: gen, Impl: impl, NQuick: 2000, NThorough: 100000})
 }
 
 func pick(r *hv.Rng, xs ...int) int { return xs[r.Intn(len(xs))] }
